@@ -21,6 +21,7 @@ var checks = map[string]func(rt.Tier) int{
 	"C07": sc.C07,
 	"C09": wm.C09,
 	"C11": wm.C11,
+	"C13": wm.C13,
 	"C14": mpt.C14,
 }
 
